@@ -2437,6 +2437,8 @@ namespace ST
             const char *next = c_str();
             const char *endp = next + size();
             size_t splitlen = std::char_traits<char>::length(splitter);
+            if (splitlen == 0)
+                max_splits = 0;
             while (max_splits) {
                 const char *sp = (cs == case_sensitive)
                         ? _ST_PRIVATE::find_cs(next, endp - next, splitter, splitlen)
@@ -2462,6 +2464,8 @@ namespace ST
 
             const char *next = c_str();
             const char *endp = next + size();
+            if (splitter.empty())
+                max_splits = 0;
             while (max_splits) {
                 const char *sp = (cs == case_sensitive)
                         ? _ST_PRIVATE::find_cs(next, endp - next, splitter.c_str(), splitter.size())
